@@ -380,6 +380,20 @@ def chk_clock_started_before_tick(F):
     return ok, 'state = Started precedes the match'
 
 
+def chk_effects_initialised(F):
+    """Every effect has had `init` before its first `process`: every track-creation site calls init_effects with the
+    renderer's current rate before it hands the track over (the B.C16.init rule, evaluated here as a precondition of the
+    discharges that rely on initialised effects: the reverb's "should be initialized" panic, the delay's non-empty line)."""
+    from .core import Results
+    from .props.c16 import init_sites
+    R2 = Results('tmp')
+    init_sites(F, R2)
+    bad = [i for i in R2.items if i['status'] == 'violation']
+    if bad:
+        return False, '%s: %s' % (bad[0]['key'], bad[0]['what'][:160])
+    return bool(R2.items), '%d creation sites initialise their effects' % len(R2.items)
+
+
 CHECKS = {
     'scratch_sized_ibs': chk_scratch_sized_ibs,
     'delay_line_nonempty': chk_delay_line_nonempty,
@@ -388,6 +402,7 @@ CHECKS = {
     'delay_chunked_by_line': chk_delay_chunked_by_line,
     'loop_region_ordered': chk_loop_region_ordered,
     'tween_value_guarded': chk_tween_value_guarded,
+    'effects_initialised': chk_effects_initialised,
     'clock_started_before_tick': chk_clock_started_before_tick,
     'compressor_log_floored': chk_compressor_log_floored,
 }
